@@ -472,7 +472,9 @@ def _run(ctx):
                     '(family, theta) pairs are captured values',
                     "numpy argsort tie-breaking and Python set iteration order enter the model as recorded data (the theorems hold for every order / every "
                     "tie-breaking that sorts row 0 last)",
-                    'the harness instruments copulas.multivariate.tree by monkeypatching (Tree.fit, _sort_tau_by_y, _check_constraint, sorted, np.empty, select_copula), restored afterwards']
+                    'the harness instruments copulas.multivariate.tree by monkeypatching (Tree.fit, _sort_tau_by_y, _check_constraint, sorted, np.empty, select_copula), restored afterwards',
+                    'tree construction (_sort_tau_by_y, get_anchor, Center/Direct builders, get_tree, Tree.fit, train_vine, VineCopula.fit slice) generated from the AST by tools/vf/vinebuildgen.py and '
+                    'proved equal to Model.Vine in Props/C16_build.v; trusted: the translator and the numpy denotations of coq/Lib/PyMat.v; RegularTree builders are not generated (docs/vinebuild_section.md)']
     ctx.assumptions += ['tau entries are finite floats or NaN (exact rationals in the model); level-1 tau has no entry <= -10 (true of any Kendall tau) for the D-vine path theorem',
                         'proximity of regular vines beyond tree 3 and "no pair conditioned twice" for regular vines are not proved in general: checked per run by valid_vine',
                         'statistical content (which family is selected, quality of theta) is C10/C11; here only: the edge stores what select_copula returned and theta passes check_theta',
